@@ -169,6 +169,17 @@ class Grid2D(GridObject):
         u_ind = np.any(selected_centroids, axis=0)
         v_ind = np.any(selected_centroids, axis=1)
 
+        # smallest sub-grid covering the selection: keep every column and row
+        # between the first and the last one holding a selected cell
+        u_ind = (
+            np.logical_or.accumulate(u_ind)
+            & np.logical_or.accumulate(u_ind[::-1])[::-1]
+        )
+        v_ind = (
+            np.logical_or.accumulate(v_ind)
+            & np.logical_or.accumulate(v_ind[::-1])[::-1]
+        )
+
         indices = np.kron(v_ind, u_ind).flatten()
 
         if not np.any(indices):
